@@ -39,6 +39,17 @@ def units(tier, seed):
             for dec in ("maxdepth", "pigrow"):
                 us.append({"kind": "tree-create", "spec": spec, "decider": dec, "depth_off": 1, "xd": True, "max_execs": 300 if tier == "quick" else 3000})
             us.append({"kind": "e2", "spec": spec, "rep": "tree", "depth_off": 1, "xd": True, "K": 2, "max_states": 15, "max_execs_per_op": 40})
+    # an inner abstract symbol with a single production that fails in some contexts (nothing left to retry there)
+    s38 = G.shape_single_production_backtrack()
+    for dec in ("maxdepth", "full", "pigrow"):
+        for off in (0, 1, 2):
+            us.append({"kind": "tree-create", "spec": s38, "decider": dec, "depth_off": off, "max_execs": 1500 if tier == "quick" else 20000})
+    us.append({"kind": "differential", "spec": s38, "max_execs": 3000 if tier == "quick" else 30000})
+    for rep in ("tree", "ge", "sge", "dsge", "stack"):
+        us.append({"kind": "e2", "spec": s38, "rep": rep, "depth_off": 1, "L": 3 if rep == "stack" else 2, "K": 2 if tier == "quick" else 3,
+                   "max_states": 25 if tier == "quick" else 80, "max_execs_per_op": 60 if tier == "quick" else 300})
+        if rep != "tree":
+            us.append({"kind": "map", "spec": s38, "rep": rep, "depth_off": 1, "L": 3 if tier == "quick" else 4, "max_execs": 20 if tier == "quick" else 100})
     for est in ("regressor", "classifier"):
         us.append({"kind": "geml", "estimator": est})
     return us
